@@ -1,5 +1,5 @@
 """Mapping property -> rules, with the explanation that goes into the evidence."""
-from .rules import tree_rules, order_rules, opt_rules, gram_rules, driver_rules, writer_rules
+from .rules import tree_rules, order_rules, opt_rules, gram_rules, driver_rules, writer_rules, edit_rules, head_rules
 
 RULES = {
     'R-LINK': tree_rules.r_link,
@@ -32,6 +32,14 @@ RULES = {
     'R-VOCAB': writer_rules.r_vocab,
     'R-TABS': writer_rules.r_tabs,
     'R-GUARD': writer_rules.r_guard,
+    'R-EDIT': edit_rules.r_edit,
+    'R-LABELEDIT': edit_rules.r_labeledit,
+    'R-LABELFIELDS': edit_rules.r_labelfields,
+    'R-LABELSPLIT': edit_rules.r_labelsplit,
+    'R-DISCOORDER': edit_rules.r_discoorder,
+    'R-EDGE': edit_rules.r_edge,
+    'R-HEADS': head_rules.r_heads,
+    'R-FLAGS': head_rules.r_flags,
 }
 
 # minimum number of instances per rule, confirmed by hand on the tree the checker was built for
